@@ -118,10 +118,25 @@ def generate(rng, seed, run, tier, xmode=False):
             common = list(dict.fromkeys(common))
             objs = common + [n for n in rng.sample(onames, min(2, len(onames))) if n not in common]
             props = common[::-1] + [n for n in rng.sample(pnames, min(2, len(pnames))) if n not in common]
-            if rng.random() < 0.3:
-                objs = objs + objs[:1]
+            r = rng.random()
+            if r < 0.35:      # several distinct repeated names
+                k = rng.randint(1, min(3, len(objs)))
+                objs = objs + rng.sample(objs, k)
+                if rng.random() < 0.5:
+                    props = props + rng.sample(props, min(len(props), rng.randint(1, 3)))
             rng.shuffle(objs)
-            events.append(['x_ctx', objs, props])
+            if r > 0.8:
+                # serialized form with several required keys missing / wrong
+                d = {'objects': objs, 'properties': props, 'context': [[] for _ in objs]}
+                for key in rng.sample(sorted(d), rng.randint(1, 3)):
+                    del d[key]
+                if rng.random() < 0.3:
+                    d['lattice'] = []
+                events.append(['x_fromdict', d])
+            elif r > 0.7:
+                events.append(['x_def', objs, props])
+            else:
+                events.append(['x_ctx', objs, props])
             continue
         if kind == 'd_new' or not live:
             ev = ['d_new', rng.randrange(n_slots), *triple()]
@@ -217,7 +232,7 @@ def generate(rng, seed, run, tier, xmode=False):
 def _model_apply(models, ev):
     """Apply ``ev`` to the list of slot models; returns (ret, dst) or raises Rejected."""
     kind = ev[0]
-    if kind in ('set_order', 'x_ctx'):
+    if kind in ('set_order', 'x_ctx', 'x_def', 'x_fromdict'):
         return None
     if kind == 'd_new':
         _, s, objs, props, bools = ev
@@ -409,6 +424,14 @@ def execute(plan, rec):
         rec.sched_step(kind, ev[1] if len(ev) > 1 and isinstance(ev[1], int) else '')
         if kind == 'x_ctx':
             out = call(Context, ev[1], ev[2], [tuple(False for _ in ev[2]) for _ in ev[1]])
+            rec.log(out.text())
+            continue
+        if kind == 'x_def':
+            out = call(Definition, ev[1], ev[2], [tuple(False for _ in ev[2]) for _ in ev[1]])
+            rec.log(out.text() if not out.ok else canon(_triple_of(out.value)))
+            continue
+        if kind == 'x_fromdict':
+            out = call(Context.fromdict, dict(ev[1]))
             rec.log(out.text())
             continue
         if kind == 'set_order':
